@@ -1062,6 +1062,7 @@ func specLeavesRoot(r string) bool { return r == ".." || strings.HasPrefix(r, ".
 func specHasTree(m map[string]parsedTree, k string) bool { _, ok := m[k]; return ok }
 func lastArgStr(f string, i int) string                 { return "" }
 func lastResStr(f string) string                        { return "" }
+func lastArgInt(f string, i int) int                    { return 0 }
 func lastErr(f string) error                            { return nil }
 
 // expand is balanced by induction over the expansion: it changes pp.paths only
@@ -1142,11 +1143,16 @@ func specDirectWriteOK(from ast.Format, ctx ast.Context) bool {
 // directly equals showing it as a value. The pinned tree takes it for every
 // render expression (known finding: the existing multi-file template tests
 // expect a text partial rendered inside Markdown to appear unescaped).
+// On both direct paths the callee is told the format of the CONTEXT it writes
+// into (the run-time conversion from Markdown to HTML is decided from it).
 //@ clause (*emitter).emitNodes/case *ast.Show
 //@   props X00 C16 C06
 //@   opt stable github.com/open2b/scriggo/ast.Render github.com/open2b/scriggo/ast.Tree
 //@   panics allowed
 //@   callassert[C16] em.emitCallNode 1 render.Tree != nil && specDirectWriteOK(render.Tree.Format, ctx)
+//@   opt track emitCallNode
+//@   loop 0
+//@     invariant[C16] called("emitCallNode") ==> lastArgInt("emitCallNode", 3) == int(ctx)
 
 // The variables of an imported template file are initialised once per FILE:
 // the emitter calls the file's init functions unless the file - named by the
